@@ -80,7 +80,14 @@ def run_mutants(mutants, props=None, verbose=True):
                     print("%-44s STALE        %s" % (m["id"], str(e)[:160]))
                 continue
             try:
-                rc, new, known, out = run_on(root, m["prop"])
+                if m["prop"] == "ALL":
+                    rc, new, known, out = 0, [], [], ""
+                    for pp in ["C%02d" % i for i in range(1, 21)]:
+                        rc1, new1, known1, out1 = run_on(root, pp)
+                        rc = rc or rc1
+                        new += new1
+                else:
+                    rc, new, known, out = run_on(root, m["prop"])
             except common.FactsError as e:
                 results.append((m, "BUILD-FAIL", str(e)[-400:]))
                 if verbose:
